@@ -394,6 +394,28 @@ def make_static_digits(nlo, nhi, lens_a, lens_b, tail="", pre_a="", pre_b=""):
     return q
 
 
+def make_replaced(nhi, lens_a, lens_b):
+    """the file is served, then replaced in place by content of another length with the same modification time (rsync -t,
+    cp -p, a rewrite within one timestamp tick), then served again: the second answer describes the file as it is now"""
+    def q(n1: int, n2: int, A: str, B: str, ranged: bool, first_head: bool, head: bool):
+        assume(0 <= n1 <= nhi and 0 <= n2 <= nhi and n1 != n2)
+        assume_digits(A, lens_a)
+        assume_digits(B, lens_b)
+        rng = "bytes=" + A + "-" + B if ranged else None
+        if first_head:
+            serve(n1, "HEAD", rng)
+        else:
+            r = run_case(n1, rng, clip(digits_value(A), digits_value(B), n1) if ranged else None, False)
+            if r:
+                return "first version (%r bytes): %s" % (n1, r)
+        r = run_case(n2, rng, clip(digits_value(A), digits_value(B), n2) if ranged else None, head)
+        if r:
+            return "file of %r bytes served, replaced by %r bytes with the same mtime, served again: %s" % (n1, n2, r)
+        cover("replaced")
+        return None
+    return q
+
+
 def make_static_text(nhi, lo, hi, cls):
     """bytes=<t>, t free ASCII text; cls restricts the first character (partition of the space into queries)"""
     def q(n: int, t: str, head: bool):
@@ -662,6 +684,9 @@ def queries(tier):
             "static_file, n in [%d, %d] (buffer-2 .. 3 buffers+2), Range 'bytes=%sA-%sB' with A %s, B %s, %s"
             % (big[0], big[1], pa, pb, lens_text(la), lens_text(lb), both),
             cost, ["206-exact", "multi-chunk", "head"], "static/big", {"pre_a": pa, "pre_b": pb})
+    add("static/replaced", make_replaced(nsmall, (0, 1), (0, 1)),
+        "static_file twice on one path: file of n1 bytes (GET or HEAD), then n2 != n1 bytes with the same mtime, n1, n2 in [0, %d], "
+        "no Range or 'bytes=A-B' with A, B of 0..1 digits, %s" % (nsmall, both), (60, 60), ["replaced", "206-exact", "416"], "static/replaced")
     # --- static_file, free header text after 'bytes='
     ntext = 9 if not T else 12
     add("static/text/le2", make_static_text(ntext, 0, 2, "any"),
